@@ -139,6 +139,63 @@ def totals_case(rng, n=None):
             'dv_scaler': rng.choice([None, None, sc(n)])}
 
 
+def hist_case(rng):
+    n1, n2 = rng.randrange(1, 4), rng.randrange(1, 4)
+    m1, m2 = rng.randrange(1, 4), rng.randrange(1, 4)
+    nr, nc = 1 + m1 + m2, n1 + n2
+    A = [[0] * nc for _ in range(nr)]
+    for r in range(nr):
+        for c in range(nc):
+            if r == 0 or c == 0 or (r - 1) % nc == c or rng.random() < 0.15:
+                A[r][c] = rng.randrange(1, 10)
+    ofs, wrts = ['f', 'y1', 'y2'], ['x1', 'x2']
+
+    def pick(names):
+        k = rng.random()
+        if k < 0.35:
+            return None
+        sub = rng.sample(names, rng.randrange(1, len(names) + 1))
+        return sub
+    calls = [{'of': None, 'wrt': None, 'ds': False}]
+    for _ in range(rng.randrange(2, 5)):
+        of, wrt = pick(ofs), pick(wrts)
+        if rng.random() < 0.6:            # exactly one of the two lists is custom
+            if rng.random() < 0.5:
+                of, wrt = (of or rng.sample(ofs, 3)), None
+            else:
+                of, wrt = None, (wrt or rng.sample(wrts, 2))
+        calls.append({'of': of, 'wrt': wrt, 'ds': rng.random() < 0.3})
+    sc = lambda m: [rng.choice([1, 2, 4, 0.5]) for _ in range(m)]
+    return {'kind': 'totals_hist', 'A': A, 'n1': n1, 'm1': m1, 'mode': rng.choice(['auto', 'fwd', 'rev']),
+            'direct': rng.random() < 0.5, 's1': rng.choice([None, sc(n1)]), 's2': rng.choice([None, sc(m2)]),
+            'calls': calls}
+
+
+def degenerate_points(rng, names, n):
+    """first point: inputs exactly 0.0 (most entries); later points: away from 0"""
+    pts = []
+    first = {v: [0 if rng.random() < 0.8 else rng.randrange(1, 4) for _ in range(n)] for v in names}
+    pts.append(first)
+    for _ in range(rng.randrange(1, 3)):
+        pts.append({v: [rng.choice([-3, -2, -1, 1, 2, 3, 4]) for _ in range(n)] for v in names})
+    return pts
+
+
+def execcomp_case(rng):
+    expr = rng.choice(['sq', 'two', 'cube', 'rev'])
+    names = {'sq': ['x', 'w', 'a'], 'two': ['x', 'w', 'z'], 'cube': ['x', 'w', 'z'], 'rev': ['x', 'w']}[expr]
+    n = rng.randrange(2, 6)
+    return {'kind': 'execcomp', 'expr': expr, 'n': n, 'points': degenerate_points(rng, names, n)}
+
+
+def nlcomp_case(rng):
+    nr, nc = rng.randrange(2, 6), rng.randrange(2, 6)
+    mk = lambda: [[rng.randrange(1, 5) if (r % nc == c or rng.random() < 0.2) else 0 for c in range(nc)]
+                  for r in range(nr)]
+    return {'kind': 'nlcomp', 'B': mk(), 'C': mk(), 'method': rng.choice(['cs', 'cs', 'fd']),
+            'points': degenerate_points(rng, ['x', 'w'], nc)}
+
+
 class C03(Spec):
     pid = 'C03'
     imports = ['C03.Model']
@@ -155,7 +212,11 @@ class C03(Spec):
             'substitution}, with an integer matrix of that pattern reconstructed through the real '
             '_expand_jac / colored_jac_iter / simul_coloring_jac_setter / _apply_subtractions and an arbitrary integer '
             'compressed matrix expanded; plus real om.Problem coloured-vs-uncoloured compute_totals with per-element '
-            'scalers and coloured fd partials; a case is non-trivial when distinct')
+            'scalers and coloured fd partials; histories of compute_totals calls (driver order first, so that the driver '
+            'colouring is cached, then custom / reordered / subset of and wrt lists) coloured vs uncoloured; ExecComp '
+            'built-in colouring and declare_coloring on cs/fd partials with the sparsity sampled at a degenerate point '
+            '(inputs exactly 0, vanishing derivatives) and re-linearised elsewhere, vs the uncoloured twin; a case is '
+            'non-trivial when distinct')
     assumptions = ['the linear solves that produce the compressed products are replaced by exact matrix products '
                    '(M @ seed); their correctness is property C01',
                    'MNCO_bidir is not modelled: every one of its outputs is checked by the proved-sound validator']
@@ -188,6 +249,12 @@ class C03(Spec):
             code = structured_code(nr, nc, rng)
             A = [[rng.randrange(1, 10) if (code >> (r * nc + c)) & 1 else 0 for c in range(nc)] for r in range(nr)]
             cases.append({'kind': 'partials', 'A': A, 'x': [rng.randrange(-4, 5) for _ in range(nc)]})
+        for _ in range(40 if quick else 600):
+            cases.append(hist_case(rng))
+        for _ in range(40 if quick else 600):
+            cases.append(execcomp_case(rng))
+        for _ in range(30 if quick else 400):
+            cases.append(nlcomp_case(rng))
         return cases
 
     def search_gen(self, tier, rng):
